@@ -27,6 +27,9 @@ func runC07(p *core.Prog, r *core.Report) {
 		c07NoConsume(c, pr)
 		c07ReadSet(c, pr)
 		c07OneEmission(c, pr)
+		// the awaited set of a round is what its Update requires before it sets a peer's flag (shared R08.2):
+		// R07.4 compares a Start's reads with that set, so the set itself must be gated correctly
+		c08Accept(c, pr)
 	}
 	r.Floor("R07.1", 12)
 	r.Floor("R07.2", 50)
